@@ -102,6 +102,10 @@ package txpool
 //@   ensures forall(i, 0, len(pool.txs), pool.txs[i] == old(pool.txs[i]) || (pool.txs[i] == nil && tx != nil && (old(pointedAt(pool, tx.Hash(), i)) || (tx.data.Type == params.BoxTx && !types.boxBad(content(tx.data.Data)) && exists(j, 0, types.subCount(content(tx.data.Data)), old(pointedAt(pool, types.subHash(content(tx.data.Data), j), i)))))))
 //@   ensures tx != nil ==> forall(i, 0, len(pool.txs), pool.txs[i] != nil ==> pool.txs[i].Hash() != tx.Hash())
 //@   ensures tx != nil && tx.data.Type == params.BoxTx && !types.boxBad(content(tx.data.Data)) ==> forall(j, 0, types.subCount(content(tx.data.Data)), forall(i, 0, len(pool.txs), pool.txs[i] != nil ==> pool.txs[i].Hash() != types.subHash(content(tx.data.Data), j)))
+// and the hash index forgets the transaction and, for a box, every one of its sub-transactions; it gains no entry
+//@   ensures tx != nil ==> !has(pool.hashIndexMap, tx.Hash())
+//@   ensures tx != nil && tx.data.Type == params.BoxTx && !types.boxBad(content(tx.data.Data)) ==> forall(j, 0, types.subCount(content(tx.data.Data)), !has(pool.hashIndexMap, types.subHash(content(tx.data.Data), j)))
+//@   ensures forallKeys(h, pool.hashIndexMap, old(has(pool.hashIndexMap, h)))
 //@   invariant @loop 0: 0 <= $k && $k <= $n && wfPool(pool) && len(pool.txs) == old(len(pool.txs)) && !has(pool.hashIndexMap, tx.Hash())
 //@   invariant @loop 0: forall(i, 0, len(pool.txs), pool.txs[i] == old(pool.txs[i]) || (pool.txs[i] == nil && (old(pointedAt(pool, tx.Hash(), i)) || exists(j, 0, $k, old(pointedAt(pool, types.subHash(content(tx.data.Data), j), i))))))
 //@   invariant @loop 0: forall(j, 0, $k, !has(pool.hashIndexMap, types.subHash(content(tx.data.Data), j)))
